@@ -639,7 +639,8 @@ def r_sort_gate(ctx, repo):
     return rule
 
 
-NONDET = {'random', 'time', 'uuid', 'secrets', 'os.urandom', 'os.environ', 'os.getpid', 'datetime.datetime.now',
+NONDET = {'random', 'time', 'uuid', 'secrets', 'os.urandom', 'os.environ', 'os.getpid', 'os.getenv', 'os.get_terminal_size',
+          'shutil.get_terminal_size', 'shutil', 'locale', 'platform', 'getpass', 'socket', 'sys.argv', 'datetime.datetime.now',
           'datetime.date.today', 'hash'}
 
 
@@ -1186,6 +1187,15 @@ def r_field_vocab(ctx, repo):
             st = getattr(n, '_parent', None)
             if isinstance(st, ast.Assign) and st.value is n and len(st.targets) == 1 and isinstance(st.targets[0], ast.Name):
                 field_of[st.targets[0].id] = key
+    # plain copies of such locals carry the same field
+    grew = True
+    while grew:
+        grew = False
+        for n in walk_function(r.node):
+            if isinstance(n, ast.Assign) and len(n.targets) == 1 and isinstance(n.targets[0], ast.Name) \
+                    and isinstance(n.value, ast.Name) and n.value.id in field_of and n.targets[0].id not in field_of:
+                field_of[n.targets[0].id] = field_of[n.value.id]
+                grew = True
     if written <= read:
         rule.ok(w.loc(), 'written %s subset of read %s' % (sorted(written), sorted(read)))
     else:
